@@ -235,6 +235,7 @@ def gen_read_case(rng, i, version, xt, small):
     sc = Script()
     sc.add("*", "open", f=0, path="s:@OUT@/in.nc", omode=0, info="-")
     checks = []
+    tslot = [0]
     for mt in NUMERIC_MEM:
         exempt = (version < 5 and xt == cs.NC_BYTE and mt == "uchar")
         mdt = np.dtype(MEM[mt])
@@ -245,6 +246,25 @@ def gen_read_case(rng, i, version, xt, small):
         if mt == "long":
             amb = amb | bad      # the default fill of the memory type "long" differs between variable and attribute reads: not asserted
         checks.append({"get": l, "err": "ERANGE" if bad.any() else ("ANY" if amb.any() else "OK"), "want": want.tobytes(), "mask": np.repeat(~amb, mdt.itemsize), "mt": mt, "what": "whole vector", "nel": len(v)})
+        # the same conversion through the flexible API and a buffer datatype with gaps (every other slot): the converted
+        # values, fills included, must arrive in the selected slots and the gaps stay untouched, range error or not
+        W = min(len(v), 240)
+        offenders = np.where(bad)[0]
+        w0 = int(min(max(0, (offenders[0] if len(offenders) else 0) - W // 2), len(v) - W))
+        tslot[0] += 1
+        sc.add("*", "type", t=tslot[0], kind="vector", base=mt, n=W, bl=1, stride=2)
+        lf = sc.add("*", "get", f=0, v=0, form="vara", mt="flex", coll=1, start=str(w0), count=str(W), bufcount=1, buftype="t%d" % tslot[0], nbytes=(2 * W - 1) * mdt.itemsize)
+        fw = np.full(2 * W - 1, 0, dtype=mdt)
+        fbytes = bytearray(b"\x5a" * ((2 * W - 1) * mdt.itemsize))
+        wsel = want[w0:w0 + W].astype(mdt).tobytes()
+        fmask = np.ones((2 * W - 1) * mdt.itemsize, dtype=bool)
+        for k in range(W):
+            fbytes[2 * k * mdt.itemsize:(2 * k + 1) * mdt.itemsize] = wsel[k * mdt.itemsize:(k + 1) * mdt.itemsize]
+            if amb[w0 + k]:
+                fmask[2 * k * mdt.itemsize:(2 * k + 1) * mdt.itemsize] = False
+        bw, aw = bad[w0:w0 + W], amb[w0:w0 + W]
+        checks.append({"get": lf, "err": "ERANGE" if bw.any() else ("ANY" if aw.any() else "OK"), "want": bytes(fbytes), "mask": fmask, "mt": mt,
+                       "what": "flexible-strided window [%d,%d)" % (w0, w0 + W), "nel": 2 * W - 1})
         runs, a = [], None
         for k in range(len(v) + 1):
             ok = k < len(v) and not bad[k] and not amb[k]
